@@ -306,6 +306,39 @@ func aggBattery(c *Ctx, a *aggMembers, valueSemantics bool) {
 				return
 			}
 		}
+		// a receiver with a copy-on-write history: clone of an origin, one chunk made private by a write (mixed flags);
+		// AndAny must leave the origin exactly as it was
+		if om := x.M; !om.IsEmpty() {
+			origin, es := buildForm(r, om, formsNoZC[r.Intn(len(formsNoZC))])
+			if es == "" {
+				origin.B.SetCopyOnWrite(true)
+				rc := origin.B.Clone()
+				rm := om.Clone()
+				ivs := om.Intervals()
+				for k := 0; k < 1+r.Intn(2); k++ {
+					v := ivs[r.Intn(len(ivs))]
+					y := (v.Lo &^ 0xFFFF) | edgeVal16(r)
+					rc.Add(uint32(y))
+					rm.Add(y)
+				}
+				c.Step("AndAny: receiver = copy-on-write clone of an origin with privately written chunks .AndAny(all members)")
+				if c.Guard("AndAny", func() { rc.AndAny(arg...) }) {
+					return
+				}
+				if d := checkEq(rc, rm.And(u)); d != "" {
+					c.Fail("AndAny/result", "AndAny (copy-on-write receiver): %s", d)
+					return
+				}
+				if d := checkEq(origin.B, om); d != "" {
+					c.Fail("AndAny/clone-parent-changed", "AndAny on a copy-on-write clone changed the bitmap it was cloned from: %s", d)
+					return
+				}
+				if !inputsIntact("AndAny") {
+					return
+				}
+				c.Eval(2)
+			}
+		}
 		c.Eval(4)
 	}
 }
